@@ -8,7 +8,12 @@ sleep, and the final result (response status / MaxRetryError + reason class / re
 class).  The same script is then replayed on the bare `Retry` object (`increment` call by call, all
 fields compared, plus `is_exhausted`, `get_backoff_time`, `is_retry`, `sleep`), and `from_int` is
 compared for the legacy argument forms.
-Oracle: the property text, evaluated on the implementation's observations only.
+Replies may carry `Location:` a path on the same pool (301/302/303/307/308, also a 200 with a Location and a
+301 without one), the request carries `redirect=` True/False, the policy is a Retry object (with `redirect` budget
+and `raise_on_redirect`) or a legacy value, and the caller streams (`preload_content=False`) or preloads: the
+response `urlopen` finally returns is READ and its bytes are compared with what the server sent for the last
+attempt (every reply carries its attempt number in a header and in the body).
+Oracle: the property text (C04, and C05's pool-level clauses), evaluated on the implementation's observations only.
 """
 from __future__ import annotations
 
@@ -31,12 +36,24 @@ ALPHABET = [["ct"], ["cr"], ["rt"], ["rr"], ["re"], ["rg"], ["o"], ["s", 200, No
             ["s", 500, None], ["s", 500, 9], ["s", 503, None], ["s", 503, 7], ["s", 503, 0], ["s", 429, 3],
             ["s", 413, 2], ["s", 418, None], ["s", 200, 5]]
 SMALL_ALPHABET = [["ct"], ["rt"], ["rr"], ["re"], ["rg"], ["o"], ["s", 200, None], ["s", 500, None], ["s", 503, 3]]
+# replies with `Location:` a path on the same pool ("l"); 200+Location and 301 without Location are no redirects
+LOCATED = [["l", 301, None], ["l", 302, None], ["l", 302, None], ["l", 303, None], ["l", 303, None], ["l", 307, None],
+           ["l", 308, None], ["l", 302, 4], ["l", 303, 0], ["l", 200, None], ["l", 500, None], ["s", 301, None],
+           ["s", 302, None]]
+REDIRECT_ALPHABET = [["ct"], ["rr"], ["l", 302, None], ["l", 303, None], ["s", 500, None], ["s", 200, None]]
+REPLY = ("s", "l")
+NO_BODY_STATUS = (204, 304)
+
+
+def reply_body(i, o):
+    """what the server sends as the body of the reply to attempt i"""
+    return b"" if o[1] in NO_BODY_STATUS else b"reply to attempt %d\n" % i
 
 
 def otok(o):
-    if o[0] != "s":
+    if o[0] not in REPLY:
         return o[0]
-    return f"s{o[1]}" if o[2] is None else f"s{o[1]}:{o[2]}"
+    return f"{o[0]}{o[1]}" if o[2] is None else f"{o[0]}{o[1]}:{o[2]}"
 
 
 def ctok(x):
@@ -48,7 +65,10 @@ def ctok(x):
 
 
 def category(o):
-    """what the property text calls the outcome (ground truth of the script, not urllib3's label)"""
+    """what the property text calls the outcome (ground truth of the script, not urllib3's label); a redirect reply
+    (followed, or asked for again because its status is forcelisted) belongs to the redirect budget"""
+    if o[0] == "l" and o[1] in (301, 302, 303, 307, 308):
+        return "redirect"
     if o[0] in CONNECT:
         return "connect"
     if o[0] in READ:
@@ -56,6 +76,11 @@ def category(o):
     if o[0] == "o":
         return "other"
     return "status"
+
+
+def is_redirect_reply(o):
+    """ground truth: the reply is a redirect (a 3xx of the five redirect codes carrying a Location)"""
+    return o[0] == "l" and o[1] in (301, 302, 303, 307, 308)
 
 
 class FakeTime:
@@ -76,14 +101,19 @@ def ticks(s):
 
 class FakeResponse:
     """what Retry looks at on a response (used for the bare-object replay only)"""
-    def __init__(self, status, retry_after):
+    def __init__(self, status, retry_after, located=False):
         from urllib3._collections import HTTPHeaderDict
         self.status = status
         self.headers = HTTPHeaderDict()
         if retry_after is not None:
             self.headers["Retry-After"] = str(retry_after)
+        if located:
+            self.headers["Location"] = "/loc"
 
     def get_redirect_location(self):
+        from urllib3.response import BaseHTTPResponse
+        if self.status in BaseHTTPResponse.REDIRECT_STATUSES:
+            return self.headers.get("location")
         return False
 
 
@@ -151,11 +181,19 @@ class C04(Prop):
             "length <= 3 over a 9-letter alphabet x 3 pool kinds x {GET, POST} x 3 configurations + random; thorough: "
             "more configurations + 20x random. Compared with the Lean model: outcomes consumed, requests on the wire, "
             "sleeps, final result, then increment/is_exhausted/get_backoff_time/is_retry/sleep on the bare object "
-            "field by field. non-trivial = at least two attempts")
+            "field by field. Redirect family: replies 301/302/303/307/308 (+ 200, 500) with Location: a path on "
+            "the same pool (with and without Retry-After), 301/302 without Location; redirect= True/False on the "
+            "request; Retry(redirect in {None, False, 0, 1, 2}, raise_on_redirect) or legacy values; body / no body; "
+            "preload_content True/False - the returned response is read and compared with the bytes the server sent "
+            "for the last attempt; pool.urlopen directly, or through ProxyManager.urlopen(redirect=False). quick: "
+            "exhaustive scripts of length <= 3 over {connect timeout, reset, 302+Location, 303+Location, 500, 200} x "
+            "redirect x preload x 3 pool kinds x {GET, POST} x 4 policies. non-trivial = at least two attempts")
     assumptions = ["backoff_jitter = 0 (jitter-free model); Retry-After is given in seconds (the HTTP-date form is not modelled)",
                    "seconds are dyadic (multiples of 2^-10 s) so that float arithmetic is exact",
                    "the script fixes the outcome of every attempt; one urlopen entry = one attempt",
-                   "responses carry no redirect location (redirects are C05's)"]
+                   "a Location names a path on the same pool (cross-host redirects and the manager-level branch are C05's)",
+                   "through ProxyManager.urlopen only requests with redirect=False or scripts without a Location "
+                   "(the manager's own redirect branch is C05's); everything else calls pool.urlopen"]
     trusted = ["http.client's reaction to the scripted faults (RemoteDisconnected / BadStatusLine / closing the "
                "connection on ConnectionError) is what the in-memory network provokes, not modelled separately"]
     time_budget = {"quick": 110, "thorough": 1100}
@@ -173,6 +211,11 @@ class C04(Prop):
              "bf": rng.choice([0, 0.5, 0.5, 1, 4, -0.5]), "bmax": rng.choice([0, 1, 3, 120, 120])}
         if rng.random() < 0.08:
             r[rng.choice(["connect", "read", "status", "other"])] = rng.choice([False, -1])
+        if rng.random() < 0.6:
+            r["redirect"] = rng.choice([None, None, 0, 1, 1, 2, 3, False])
+            r["ror"] = rng.random() < 0.6
+            if rng.random() < 0.3:
+                r["forcelist"] = rng.choice([[302], [303, 500], [500, 301]])
         return r
 
     def cases(self, rng, tier, escalate=False):
@@ -202,19 +245,51 @@ class C04(Prop):
                     for sc in scripts:
                         yield {"mode": mode, "retry": cfg, "method": method, "script": sc, "keepalive": False,
                                "kind": "exh"}
+        # ---- redirect family: fault / redirect / status scripts x redirect= x preload_content x policies
+        rgrid = [
+            {"total": 3, "connect": None, "read": None, "status": None, "other": None, "allowed": "default",
+             "forcelist": [500], "ros": False, "rra": True, "bf": 0, "bmax": 120, "redirect": 1, "ror": True},
+            {"total": 2, "connect": None, "read": None, "status": None, "other": None, "allowed": None,
+             "forcelist": [500], "ros": False, "rra": True, "bf": 0, "bmax": 120, "redirect": None, "ror": False},
+            {"arg": 2},
+            {"total": None, "connect": 1, "read": 1, "status": 1, "other": None, "allowed": "default",
+             "forcelist": [500, 302], "ros": True, "rra": True, "bf": 0, "bmax": 120, "redirect": 2, "ror": True},
+        ]
+        rscripts = []
+        for n in (1, 2, 3):
+            rscripts += [list(t) for t in itertools.product(REDIRECT_ALPHABET, repeat=n)]
+        for mode in ("direct", "fwd", "tun"):
+            for cfg in rgrid:
+                for method in ("GET", "POST"):
+                    for redirect in (True, False):
+                        for preload in (True, False):
+                            for sc in rscripts:
+                                via = "manager" if (mode != "direct" and not redirect and len(sc) % 2 == 0) else "pool"
+                                yield {"mode": mode, "retry": cfg, "method": method, "script": sc, "keepalive": False,
+                                       "redirect": redirect, "preload": preload, "body": method == "POST",
+                                       "via": via, "kind": "exh-redirect"}
         nrand = 500000 if deep else 40000
         for _ in range(nrand):
             n = rng.choice([1, 2, 2, 3, 3, 4, 5, 5])
             keep = rng.random() < 0.25
+            with_loc = rng.random() < 0.5
             sc = []
             for _ in range(n):
-                o = rng.choice(ALPHABET)
+                pick = lambda: rng.choice(LOCATED) if (with_loc and rng.random() < 0.45) else rng.choice(ALPHABET)
+                o = pick()
                 # with keep-alive the connection of a completed response is reused: no connect phase
-                while keep and sc and sc[-1][0] == "s" and o[0] in CONNECT:
-                    o = rng.choice(ALPHABET)
+                while keep and sc and sc[-1][0] in REPLY and o[0] in CONNECT:
+                    o = pick()
                 sc.append(o)
-            yield {"mode": rng.choice(["direct", "fwd", "tun"]), "retry": self.rand_retry(rng),
-                   "method": rng.choice(METHODS), "script": sc, "keepalive": keep, "kind": "rand"}
+            mode = rng.choice(["direct", "fwd", "tun"])
+            redirect = rng.random() < 0.5 if with_loc else rng.random() < 0.8
+            located = any(o[0] == "l" for o in sc)
+            via = "pool"
+            if mode != "direct" and (not redirect or not located) and rng.random() < 0.5:
+                via = "manager"
+            yield {"mode": mode, "retry": self.rand_retry(rng),
+                   "method": rng.choice(METHODS), "script": sc, "keepalive": keep, "redirect": redirect,
+                   "preload": rng.random() < 0.5, "body": rng.random() < 0.4, "via": via, "kind": "rand"}
 
     def shrink_candidates(self, case):
         sc = case["script"]
@@ -234,6 +309,16 @@ class C04(Prop):
         if case.get("keepalive"):
             c = dict(case); c["keepalive"] = False
             yield c
+        if case.get("body"):
+            c = dict(case); c["body"] = False
+            yield c
+        if case.get("via") == "manager":
+            c = dict(case); c["via"] = "pool"
+            yield c
+        for i, o in enumerate(sc):
+            if o[0] in REPLY and o[2] is not None:
+                c = dict(case); c["script"] = sc[:i] + [[o[0], o[1], None]] + sc[i + 1:]
+                yield c
 
     # ------------------------------------------------------------------ execution
     @staticmethod
@@ -246,6 +331,9 @@ class C04(Prop):
                   respect_retry_after_header=spec["rra"], backoff_factor=spec["bf"], backoff_max=spec["bmax"])
         if spec["allowed"] != "default":
             kw["allowed_methods"] = spec["allowed"]
+        if "redirect" in spec:
+            kw["redirect"] = spec["redirect"]
+            kw["raise_on_redirect"] = spec["ror"]
         return Retry(**kw)
 
     _ctx = None
@@ -258,15 +346,20 @@ class C04(Prop):
 
     def drive(self, case, retries):
         """one urlopen through the in-memory network; returns the observations"""
+        import inspect
         import urllib3.util.retry as ur
         from urllib3 import HTTPConnectionPool, ProxyManager
         from urllib3.exceptions import HTTPError, MaxRetryError
         from ..net import Net, Server, http_response
 
         mode, method, keep = case["mode"], case["method"], bool(case.get("keepalive"))
+        redirect, preload = bool(case.get("redirect", True)), bool(case.get("preload", True))
+        via = case.get("via", "pool" if mode == "direct" else "manager")
+        body = b"payload" if case.get("body") else None
         script = [list(o) for o in case["script"]] + [["s", 200, None]]
-        state = {"i": 0, "att": [], "sleeps": [], "cur": None, "unconsulted": False}
+        state = {"i": 0, "att": [], "entries": [], "sleeps": [], "cur": None, "unconsulted": False, "wire": []}
         net = Net()
+        base = "http://origin" if mode == "fwd" else ""        # a forwarding proxy needs absolute-form targets
 
         def connect_hook(sock, host, port):
             o = state["cur"]
@@ -285,6 +378,8 @@ class C04(Prop):
                 peer.reply(b"HTTP/1.1 200 Connection established\r\n\r\n")
                 return
             o = state["cur"]
+            i = state["i"]
+            state["wire"].append((i, req))
             k = o[0]
             if k in CONNECT:
                 state["unconsulted"] = True          # a connect fault was scripted but no socket was opened
@@ -302,9 +397,12 @@ class C04(Prop):
                 peer.fault_on_read(ssl.SSLError("scripted tls failure"))
             else:
                 hs = [] if keep else [("Connection", "close")]
+                hs.append(("X-Attempt", str(i)))
                 if o[2] is not None:
                     hs.append(("Retry-After", str(o[2])))
-                peer.reply(http_response(o[1], hs, b"ok"))
+                if k == "l":
+                    hs.append(("Location", f"{base}/loc{i}"))
+                peer.reply(http_response(o[1], hs, reply_body(i, o)))
                 if not keep:
                     peer.close()
 
@@ -324,6 +422,7 @@ class C04(Prop):
                     url = "http://origin/" if mode == "fwd" else "https://origin/"
                     pool = top.connection_from_url(url)
                 inner = pool.urlopen
+                sig = inspect.signature(inner)
 
                 def counted(*a, **kw):        # one entry into pool.urlopen == one attempt
                     idx = len(state["att"])
@@ -331,12 +430,33 @@ class C04(Prop):
                     state["att"].append(o)
                     state["cur"] = o
                     state["i"] = idx
+                    ba = sig.bind(*a, **kw).arguments
+                    state["entries"].append((ba.get("method"), ba.get("url"), ba.get("body")))
                     return inner(*a, **kw)
 
                 pool.urlopen = counted
+                returned = None
                 try:
-                    r = top.urlopen(method, url, retries=retries)
+                    if via == "manager":
+                        # PoolManager.urlopen hands `redirect=False` and the caller's `retries` to the pool
+                        r = top.urlopen(method, url, body=body, retries=retries, redirect=redirect,
+                                        preload_content=preload)
+                    else:
+                        purl = "/" if mode != "fwd" else url
+                        # the forwarding pool is the proxy's: like PoolManager.urlopen, no same-host assertion
+                        r = pool.urlopen(method, purl, body=body, retries=retries, redirect=redirect,
+                                         assert_same_host=(mode != "fwd"), preload_content=preload)
                     res = ("resp", r.status, None)
+                    # the caller now reads what it was given
+                    try:
+                        data = r.data if preload else r.read()
+                    except Exception as e:      # noqa: BLE001
+                        data = "unreadable:" + type(e).__name__
+                    returned = {"attempt": r.headers.get("X-Attempt"), "data": data}
+                    try:
+                        r.release_conn()
+                    except Exception:           # noqa: BLE001
+                        pass
                 except MaxRetryError as e:
                     res = ("max", cause_name(e.reason), e.reason)
                 except HTTPError as e:
@@ -351,69 +471,99 @@ class C04(Prop):
                         top.close() if mode == "direct" else top.clear()
                     except Exception:
                         pass
-                wire = [q for _, q in net.requests if q.method != "CONNECT"]
+                wire = state["wire"]
         finally:
             ur.time = saved_time
-        return {"att": state["att"], "wire": wire, "sleeps": state["sleeps"], "res": res,
-                "unconsulted": state["unconsulted"]}
+        return {"att": state["att"], "entries": state["entries"], "wire": wire, "sleeps": state["sleeps"],
+                "res": res, "returned": returned, "unconsulted": state["unconsulted"]}
+
+    @staticmethod
+    def target_id(url):
+        """0: the caller's URL; k + 1: the Location handed out by the reply to attempt k"""
+        path = url.split("://", 1)[1].partition("/")[2] if "://" in url else url.lstrip("/")
+        if path.startswith("loc") and path[3:].isdigit():
+            return int(path[3:]) + 1
+        return 0 if path == "" else -1
 
     def execute(self, case, res):
         from urllib3.util.retry import Retry
         spec = case["retry"]
         retries = self.build_retry(spec)
+        mode, method = case["mode"], case["method"]
+        via = case.get("via", "pool" if mode == "direct" else "manager")
+        redirect = bool(case.get("redirect", True))
+        # the `redirect=` the pool is called with: PoolManager.urlopen always hands `redirect=False` down
+        pool_redirect = redirect if via == "pool" else False
+        if via == "manager" and redirect and any(o[0] == "l" for o in case["script"]):
+            raise AssertionError("generator sent a Location through the manager's own redirect branch (C05's)")
         lines, out = [], []
         # ---- from_int for the legacy forms
         if not isinstance(retries, Retry):
-            for redirect in (True, False):
+            for rd in (True, False):
                 for dflt in (None, False, 2):
-                    lines.append(f"fromint {ctok(retries) if retries is not None else '~'} {int(redirect)} "
+                    lines.append(f"fromint {ctok(retries) if retries is not None else '~'} {int(rd)} "
                                  f"{ctok(dflt) if dflt is not None else '~'}")
-                    out.append(show_retry(Retry.from_int(retries, redirect=redirect, default=dflt)))
-            effective = Retry.from_int(retries, redirect=True, default=None)
+                    out.append(show_retry(Retry.from_int(retries, redirect=rd, default=dflt)))
+            effective = Retry.from_int(retries, redirect=pool_redirect, default=None)
+            policy = "I " + (ctok(retries) if retries is not None else "~")
             res.bump("retries:legacy")
         else:
             effective = retries
+            policy = retry_tokens(retries)
             res.bump("retries:object")
         before = dict(vars(effective))
         obs = self.drive(case, retries)
         if obs["unconsulted"]:
             raise AssertionError("generator produced a connect fault on a reused connection")
         att, wire, sleeps, (rk, rv, robj) = obs["att"], obs["wire"], obs["sleeps"], obs["res"]
-        mode, method = case["mode"], case["method"]
+        entries, returned = obs["entries"], obs["returned"]
         script = case["script"] + [["s", 200, None]]
         res.bump("mode:" + mode)
+        res.bump("via:" + via)
+        res.bump("redirect:%d" % redirect)
+        res.bump("preload:%d" % bool(case.get("preload", True)))
         res.bump("attempts:%d" % len(att))
         res.bump("result:" + rk)
         for o in att:
-            res.bump("outcome:" + (o[0] if o[0] != "s" else "s%d%s" % (o[1], "" if o[2] is None else "+ra")))
+            res.bump("outcome:" + (o[0] if o[0] not in REPLY else "%s%d%s" % (o[0], o[1], "" if o[2] is None else "+ra")))
         # ---- the run, line for the model
         sent = len(wire)
-        lines.append(f"run {0 if mode == 'direct' else 1} {retry_tokens(effective)} {enc(method)} "
-                     + ",".join(otok(o) for o in script))
-        out.append(f"att={','.join(otok(o) for o in att) or '-'} sent={sent} "
-                   f"sleeps={','.join(ticks(s) for _, s in sleeps) or '-'} "
-                   f"res={'resp:%d' % rv if rk == 'resp' else rk + ':' + str(rv)}")
+        lines.append(f"run {0 if mode == 'direct' else 1} {int(pool_redirect)} {int(bool(case.get('body')))} "
+                     f"{enc(method)} " + ",".join(otok(o) for o in script) + " " + policy)
+        shown = ",".join(f"{enc(m)}@{self.target_id(u)}{'-' if b is None else '+'}/{otok(o)}"
+                         for (m, u, b), o in zip(entries, att))
+        if rk == "resp":
+            # which reply the caller holds (header) and whether its bytes are those the server sent for it
+            k = returned["attempt"]
+            intact = k is not None and k.isdigit() and int(k) < len(att) and att[int(k)][0] in REPLY \
+                and returned["data"] == reply_body(int(k), att[int(k)])
+            shown_res = f"resp:{k}{'' if intact else '!body'}:{rv}"
+        else:
+            shown_res = rk + ":" + str(rv)
+        out.append(f"att={shown or '-'} sent={sent} "
+                   f"sleeps={','.join(ticks(s) for _, s in sleeps) or '-'} res={shown_res}")
         # ---- oracle (implementation only)
-        self.oracle(case, effective, before, att, wire, sleeps, (rk, rv, robj), res)
+        self.oracle(case, retries, effective, pool_redirect, before, obs, res)
         # ---- the bare object, call by call
-        self.replay_object(case, effective, att, lines, out)
+        self.replay_object(case, effective, att, entries, pool_redirect, lines, out)
         return lines, out
 
     # ------------------------------------------------------------------ bare Retry object
-    def replay_object(self, case, retry, att, lines, out):
+    def replay_object(self, case, retry, att, entries, pool_redirect, lines, out):
         from urllib3.exceptions import (ConnectTimeoutError, MaxRetryError, NewConnectionError, ProtocolError,
                                         ProxyError, ReadTimeoutError, SSLError)
-        method = case["method"]
         proxied = case["mode"] != "direct"
         lines.append("retry " + retry_tokens(retry)); out.append("ok")
         cur = retry
-        for o in att:
+        for idx, o in enumerate(att):
             k = o[0]
-            if k == "s":
-                resp = FakeResponse(o[1], o[2])
+            method = entries[idx][0] if idx < len(entries) else case["method"]
+            if k in REPLY:
+                resp = FakeResponse(o[1], o[2], located=(k == "l"))
                 lines.append(f"isretry {enc(method)} {o[1]} {int(bool(resp.headers.get('Retry-After')))}")
                 out.append(str(int(cur.is_retry(method, o[1], bool(resp.headers.get("Retry-After"))))))
-                ev, kw = f"s:{o[1]}", {"response": resp}
+                # `increment` itself asks the response whether it is a redirect
+                ev, kw = f"{'r' if resp.get_redirect_location() else 's'}:{o[1]}", {"response": resp}
             else:
                 if k == "ct":
                     e = ConnectTimeoutError(None, "timed out")
@@ -444,22 +594,25 @@ class C04(Prop):
                 out.append("reraise " + err_name(e))
             lines.append("exh"); out.append(str(int(cur.is_exhausted())))
             lines.append("backoff"); out.append(ticks(cur.get_backoff_time()))
-            if k == "s":
+            if k in REPLY:
                 import urllib3.util.retry as ur
                 st = {"i": 0, "sleeps": []}
                 saved = ur.time
                 ur.time = FakeTime(st)
                 try:
-                    cur.sleep(FakeResponse(o[1], o[2]))
+                    cur.sleep(FakeResponse(o[1], o[2], located=(k == "l")))
                 finally:
                     ur.time = saved
                 lines.append(f"sleep {o[1]}" + ("" if o[2] is None else f":{o[2]}"))
                 out.append(ticks(st["sleeps"][0][1]) if st["sleeps"] else "~")
 
     # ------------------------------------------------------------------ oracle
-    def oracle(self, case, retry, before, att, wire, sleeps, result, res):
+    def oracle(self, case, retries, retry, pool_redirect, before, obs, res):
         from urllib3.exceptions import ResponseError, ProxyError, ConnectTimeoutError, ReadTimeoutError
-        rk, rv, robj = result
+        from urllib3.util.retry import Retry
+        att, entries, wire, sleeps = obs["att"], obs["entries"], obs["wire"], obs["sleeps"]
+        rk, rv, robj = obs["res"]
+        returned = obs["returned"]
         mode, method = case["mode"], case["method"]
         proxied = mode != "direct"
 
@@ -477,16 +630,46 @@ class C04(Prop):
             return
         if rk == "raw":
             fail("non-urllib3-exception", f"urlopen raised {rv}")
-        # wire: every attempt that got past connect puts exactly one request on the wire, with the caller's method
-        expect_wire = sum(1 for o in att if o[0] not in CONNECT)
-        if len(wire) != expect_wire or any(q.method != method for q in wire):
-            fail("wire-mismatch", f"{len(wire)} requests on the wire for {expect_wire} attempts that reached the server")
-        # budgets
+        # which URL every attempt asked for: the caller's (0) or the Location handed out by attempt k (k + 1)
+        targets = [self.target_id(u) for _, u, _ in entries]
+        followed = [att[i][0] == "l" and targets[i + 1] == i + 1 for i in range(n - 1)]
+        for i, t in enumerate(targets):
+            if t != 0 and not (i > 0 and (t == targets[i - 1] or followed[i - 1])):
+                fail("unexpected-target", f"attempt {i} asked for {entries[i][1]!r}")
+                return
+        # redirect=False: the 3xx is handed back, its Location is never requested - whatever was retried before
+        if not pool_redirect and any(targets):
+            i = next(i for i, t in enumerate(targets) if t)
+            prior = ",".join(otok(o) for o in att[:i - 1]) or "nothing"
+            fail("redirect-false-followed" + ("" if i == 1 else ":after-retry"),
+                 f"redirect=False, yet the Location of {otok(att[i - 1])} was requested (after {prior})")
+        for i, f in enumerate(followed):
+            if f and not is_redirect_reply(att[i]):
+                fail("non-redirect-followed", f"the Location of {otok(att[i])} was requested")
+        # method / body of every attempt: the caller's; after a followed 303 a body-less GET
+        exp = [(method, b"payload" if case.get("body") else None)]
+        for i in range(n - 1):
+            exp.append(("GET", None) if (followed[i] and att[i][1] == 303) else exp[-1])
+        # wire: every attempt that got past connect puts exactly one request on the wire
+        expect_wire = [i for i, o in enumerate(att) if o[0] not in CONNECT]
+        if [i for i, _ in wire] != expect_wire:
+            fail("wire-mismatch", f"requests on the wire for attempts {[i for i, _ in wire]}, expected {expect_wire}")
+        else:
+            for i, q in wire:
+                em, eb = exp[i]
+                if q.method != em or (q.body or b"") != (eb or b"") or self.target_id(q.target) != targets[i]:
+                    fail("wire-mismatch" + (":303-rewrite" if exp[i] != exp[0] or q.method != method else ""),
+                         f"attempt {i}: {q.method} {q.target} body={q.body!r} on the wire, expected {em} "
+                         f"target#{targets[i]} body={eb!r}")
+                    break
+        # budgets (every entry into urlopen counts: retries and redirect hops alike)
         total = retry.total
         if total is not None and total is not False and n > 1 + max(total, 0):
             fail("total-budget-exceeded", f"{n} attempts with total={total}")
-        for cat in ("connect", "read", "status", "other"):
-            b = getattr(retry, cat)
+        # the redirect budget by the property text: the Retry's own, or - legacy forms - none / 0 for redirect=False
+        rbudget = retries.redirect if isinstance(retries, Retry) else (None if pool_redirect else 0)
+        for cat in ("connect", "read", "status", "other", "redirect"):
+            b = rbudget if cat == "redirect" else getattr(retry, cat)
             if b is None:
                 continue
             limit = 0 if b is False else max(b, 0)
@@ -499,19 +682,22 @@ class C04(Prop):
                          f"response is charged to 'other' behind a proxy")
                 else:
                     fail(f"{cat}-budget-exceeded", f"{len(charged)} {cat} retries with {cat}={b}")
-        # non-idempotent methods are never re-sent after they may have reached the server
+        # non-idempotent methods are never re-sent after they may have reached the server (a followed redirect is a
+        # new request by design: 307/308 keep the method)
         am = retry.allowed_methods
-        if am and method.upper() not in am:
-            for o in retried:
-                if o[0] in READ or o[0] == "s":
-                    if proxied and o[0] in ("rr", "re"):
-                        fail(KNOWN_SIG, f"{mode}: {method} (not in allowed_methods) re-sent after a connection "
-                             f"{'reset' if o[0] == 'rr' else 'EOF'} while reading the response")
-                    else:
-                        fail("nonidempotent-resent:" + category(o), f"{method} re-sent after {otok(o)}")
-                    break
+        for i, o in enumerate(retried):
+            m_i = exp[i][0]
+            if not (am and m_i.upper() not in am):
+                continue
+            if o[0] in READ or (o[0] in REPLY and not followed[i]):
+                if proxied and o[0] in ("rr", "re"):
+                    fail(KNOWN_SIG, f"{mode}: {m_i} (not in allowed_methods) re-sent after a connection "
+                         f"{'reset' if o[0] == 'rr' else 'EOF'} while reading the response")
+                else:
+                    fail("nonidempotent-resent:" + category(o), f"{m_i} re-sent after {otok(o)}")
+                break
         # retries=False re-raises the original error at once
-        if total is False and att and att[0][0] != "s":
+        if total is False and att and att[0][0] not in REPLY:
             if n != 1 or rk != "err":
                 fail("false-not-reraised", f"total=False: {n} attempts, result {rk}:{rv}")
         # the caller's Retry object is never mutated
@@ -523,13 +709,14 @@ class C04(Prop):
             o = att[i] if i < len(att) else None
             if 0 <= s <= retry.backoff_max:
                 continue
-            if (o is not None and o[0] == "s" and o[2] is not None and s == o[2]
-                    and retry.respect_retry_after_header):
+            if (o is not None and o[0] in REPLY and o[2] is not None and s == o[2]
+                    and (retry.respect_retry_after_header or (i < n - 1 and followed[i]))):
                 continue
             fail("sleep-out-of-bounds", f"slept {s!r} after {otok(o) if o else '?'} with backoff_max={retry.backoff_max}")
-        # a status is retried only when forcelisted, or 413/429/503 with Retry-After (and the header respected)
-        for o in retried:
-            if o[0] == "s":
+        # a reply is followed by another attempt only as a followed redirect (redirect=True, a redirect status with a
+        # Location), or when forcelisted, or 413/429/503 with Retry-After (and the header respected)
+        for i, o in enumerate(retried):
+            if o[0] in REPLY and not followed[i]:
                 forced = o[1] in (retry.status_forcelist or ())
                 gated = o[1] in RETRY_AFTER_CODES and o[2] is not None and retry.respect_retry_after_header
                 if not (forced or gated):
@@ -539,10 +726,16 @@ class C04(Prop):
         if rk == "max":
             if last is None:
                 fail("exhaustion-surface", "MaxRetryError without an attempt")
-            elif last[0] == "s":
-                if not (isinstance(robj, ResponseError) and str(last[1]) in str(robj)):
+            elif last[0] in REPLY:
+                as_redirect = is_redirect_reply(last)
+                named = isinstance(robj, ResponseError) and (
+                    str(last[1]) in str(robj) or (as_redirect and "too many redirects" in str(robj)))
+                if not named:
                     fail("exhaustion-surface", f"MaxRetryError after {otok(last)} carries {rv}")
-                if not retry.raise_on_status:
+                if as_redirect and pool_redirect:
+                    if not retry.raise_on_redirect:
+                        fail("exhaustion-surface", "MaxRetryError although raise_on_redirect=False")
+                elif not retry.raise_on_status:
                     fail("exhaustion-surface", "MaxRetryError although raise_on_status=False")
             else:
                 cause = robj.original_error if isinstance(robj, ProxyError) else robj
@@ -554,10 +747,19 @@ class C04(Prop):
                 if not ok:
                     fail("exhaustion-surface", f"MaxRetryError after {otok(last)} carries {rv}")
         elif rk == "resp":
-            if last is None or last[0] != "s" or last[1] != rv:
+            if last is None or last[0] not in REPLY or last[1] != rv:
                 fail("exhaustion-surface", f"returned status {rv} but the last attempt was {otok(last) if last else None}")
+            else:
+                # ... "as the last response": the object handed back is the reply to the last attempt, and what the
+                # caller reads from it is what the server sent for that attempt
+                want = reply_body(n - 1, last)
+                if returned["attempt"] != str(n - 1) or returned["data"] != want:
+                    how = "preloaded" if case.get("preload", True) else "streamed"
+                    fail("returned-response-not-last-reply:" + how,
+                         f"the response returned after {otok(last)} (attempt {n - 1}, {how}) is reply "
+                         f"#{returned['attempt']} and reads {returned['data']!r}; the server sent {want!r}")
         elif rk == "err":
-            if last is None or last[0] == "s":
+            if last is None or last[0] in REPLY:
                 fail("exhaustion-surface", f"raised {rv} after {otok(last) if last else None}")
 
     def flush(self, res, pending, tag=""):
